@@ -256,7 +256,7 @@ def vectors(run):
     for extra in (('1',), ('2',), ('3',), ('4',), ('4', 'False'), ('2', 'False', 'Sheet'), ('1', 'True', 'S')):
         V.append(('_address', (7, 28) + extra))
     # C12
-    r = run.tlc('Gen_C12', ['INIT Init', 'NEXT Next', 'CONSTANT R = 3', 'CONSTANT Reduced = TRUE'], workers=4, timeout=1800, tag='C20_Gen_C12')
+    r = run.tlc('Gen_C12', ['INIT Init', 'NEXT Next', 'CONSTANT R = 3', 'CONSTANT Reduced = TRUE', 'CONSTANT Bools = FALSE'], workers=4, timeout=1800, tag='C20_Gen_C12')
     target = [[10], [20], [40]]
     for rec in r.records[::4 if q else 1]:
         col = [[E() if c['k'] == 'blank' else p12.cell_value(c)] for c in rec['col']]
